@@ -600,7 +600,7 @@ DECL_TYPES = [b"STRING", b"TEXT", b"BLOB", b"INTEGER", b"REAL", b"NUMERIC", b"VA
 
 class Check(PropertyCheck):
     prop = "C03"
-    module = "LLBuild.Props.C03"
+    module = "LLBuild.Props.C03All"
     theorems = ["LLBuild.BuildDB.C03_wiring", "LLBuild.BuildDB.C03_dep_codec", "LLBuild.BuildDB.C03_dep_codec_keys",
                 "LLBuild.BuildDB.C03_dep_blob_codec", "LLBuild.BuildDB.C03_stored_key_faithful",
                 "LLBuild.BuildDB.C03_affinity_witness", "LLBuild.BuildDB.C03_read_your_writes",
@@ -609,7 +609,14 @@ class Check(PropertyCheck):
                 # follow-up: op sequences over any number of connections (Lemmas/BuildDBLock, BuildDBMap, BuildDBInv, BuildDBSpec)
                 "LLBuild.BuildDB.C03_reachable_inv", "LLBuild.BuildDB.C03_refines_map", "LLBuild.BuildDB.C03_frame",
                 "LLBuild.BuildDB.C03_read_your_writes_seq", "LLBuild.BuildDB.C03_lock_step", "LLBuild.BuildDB.C03_single_writer",
-                "LLBuild.BuildDB.C03_other_writers_refused"]
+                "LLBuild.BuildDB.C03_other_writers_refused",
+                # engine level on the concrete engine model (Props/EngineImplSched4.lean): a new engine over the committed store
+                "LLBuild.Refine.EngineImpl_sound_C03_restart_snapshot", "LLBuild.Refine.EngineImpl_sound_C03_restart_reference",
+                "LLBuild.Refine.EngineImpl_sound_C03_restart_transparent", "LLBuild.Refine.EngineImpl_sound_C03_restart_split_value",
+                "LLBuild.Refine.EngineImpl_C03_killed_build_is_restart", "LLBuild.Engine.C03_restart_transparent",
+                # … and where a restart IS visible (decide witnesses, replayed on the real engine): F55, a harness-only case, upToDate's epoch
+                "LLBuild.Refine.C03_not_transparent_after_failed_build", "LLBuild.Refine.C03_not_transparent_stale_signature",
+                "LLBuild.Refine.C03_snapshots_differ"]
     extractors = ["x_sqlitedb"]
     harnesses = [("vc03", "plain"), ("vengine", "plain")]
     assumptions = [
